@@ -291,7 +291,8 @@ def run_manual(case):
     """('m', provider, trigger occurrence 0/1, ack wall index, zone form of the acknowledgement): the trigger lies in the
     repeated hour of 2024-10-27 (Europe/Berlin); the component acknowledgement is given through Alarms.acknowledge_until()
     in the SAME zone (the same tzinfo object where the library has one), in UTC or in another zone: instants decide."""
-    _, provider, tocc, ai, form = case
+    _, provider, tocc, ai, form = case[:5]
+    op = case[5] if len(case) > 5 else "ack"
     env.use_provider(provider)
     fails = []
 
@@ -315,6 +316,26 @@ def run_manual(case):
     al.add("action", "DISPLAY")
     al.TRIGGER = timedelta(0)
     comp.add_component(al)
+    if op != "ack":
+        # the same menu value as SNOOZE time; the component is acknowledged an hour before / half an hour after the trigger.
+        # wall-clock order and real order of trigger and snooze disagree inside the repeated hour: instants decide
+        T = trig.astimezone(UTC)
+        ack0 = T + (timedelta(hours=-1) if op == "snooze-ack-before" else timedelta(minutes=30))
+        want = (M.is_active(T, None, ack0, ack_instant), M.effective_trigger(T, ack_instant))
+        try:
+            alarms = Alarms(comp)
+            alarms.acknowledge_until(ack0)
+            alarms.snooze_until(ack)
+            t = alarms.times[0]
+            got = (t.is_active(), t.trigger.astimezone(UTC))
+            if (len(alarms.active) == 1) is not got[0]:
+                got = got + ("active list disagrees",)
+        except Exception as e:  # noqa: BLE001
+            got = f"{type(e).__name__}: {e}"
+        if got != want:
+            fails.append(fail("snooze_until-zoned-value-around-a-repeated-hour", case, repr(want), repr(got), 0))
+        return {"state": ("manual", provider, tocc, ai, form, op, repr(got)), "trans": 4, "nontrivial": True,
+                "outcome": "manual-ok" if not fails else "FAIL", "fails": fails}
     want = trig.astimezone(UTC) > ack_instant
     try:
         alarms = Alarms(comp)
@@ -415,7 +436,7 @@ def replay(case):
     if case[0] == "k":
         return run_calls(case[:8])
     if case[0] == "m":
-        return run_manual(case[:5])
+        return run_manual(case[:6] if len(case) > 6 else case[:5])
     return run_case(case[:9], case[9] if len(case) > 9 else None)
 
 
@@ -467,5 +488,7 @@ def run(ctx):
                 for ai in range(len(FOLD_WALLS)):
                     for form in ("same-zone", "utc", "other-zone"):
                         yield ("m", provider, tocc, ai, form)
+                        for op in ("snooze-ack-before", "snooze-ack-after"):
+                            yield ("m", provider, tocc, ai, form, op)
 
-    ctx.explore("acknowledge_until around a repeated hour", gen_manual, run_manual)
+    ctx.explore("acknowledge_until / snooze_until around a repeated hour", gen_manual, run_manual)
